@@ -1,436 +1,4 @@
+import BalmProofs.PlainInv
+import BalmProofs.GenericInv
 import BalmProofs.JudgeExact
-import BalmProofs.JudgeSpec
-import Balm.Impl.Diagram
-import Balm.Impl.Block
-import Balm.Impl.ASeeds
-import Balm.Full
-/-!
-# C04 – lazily built diagrams are always a faithful part of the full diagram
-
-The model's single-node expansion is `SDm.expandOneLimited` over `Impl.implEnv`; every plain
-driver of `Impl.Diagram` (BFS, DFS, target-directed, minimal-space without skipping) changes the
-diagram only through `Impl.expandNode`.  Hence the strict invariant `SDm.Inv` – nodes are pairwise
-distinct percolation-closed trap spaces, an unexpanded node has no successor, an expanded node has
-exactly the percolations of its stable motifs as successors with exactly those motifs on the
-edges, in key order – holds after every plain history, for every network, limit and start node.
--/
-namespace Balm.Props.C04
-
-open Balm Balm.Impl Balm.SDm
-
-variable {n : Nat}
-
-/-- the root of every diagram is a percolation-closed trap space -/
-theorem root_good (N : Net n) : GoodSpace N (perc N top) :=
-  ⟨percIter_trap N (constOnOf N) n _ (top_trap N), percolate_idem N (constOnOf N) _⟩
-
-/-- the strict invariant, for the model state -/
-def StrictInv (c : Ctx n) (d : Diag n) : Prop := SDm.Inv c.env d.core none
-
-theorem init_inv (N : Net n) (L : Nat) : StrictInv (Ctx.mk' N L) (initDiag (Ctx.mk' N L)) :=
-  SDm.init_inv _ _ (root_good N)
-
-/-- single-node expansion (with the stable-motif limit error) preserves the invariant -/
-theorem expandNode_inv (c : Ctx n) (d : Diag n) (i : Nat) (h : StrictInv c d) :
-    StrictInv c (expandNode c d i).1 :=
-  SDm.expandOneLimited_inv c.env c.motifLimit d.core i h
-
-theorem bfsLevel_inv (c : Ctx n) (sz : Option Nat) :
-    ∀ (cur : List Nat) (d : Diag n) (seen next : List Nat), StrictInv c d →
-      StrictInv c (bfsLevel c sz cur d seen next).1 := by
-  intro cur
-  induction cur with
-  | nil => intro d seen next h; simpa [bfsLevel] using h
-  | cons node rest ih =>
-    intro d seen next h
-    unfold bfsLevel
-    split
-    · exact h
-    · have h' := expandNode_inv c d node h
-      cases hx : expandNode c d node with
-      | mk d' okk =>
-        rw [hx] at h'
-        simp only
-        split
-        · exact h'
-        · exact ih _ _ _ h'
-
-theorem bfsLoop_inv (c : Ctx n) (lv sz : Option Nat) :
-    ∀ (fuel : Nat) (d : Diag n) (seen cur : List Nat) (level : Nat), StrictInv c d →
-      StrictInv c (bfsLoop c lv sz fuel d seen cur level).1 := by
-  intro fuel
-  induction fuel with
-  | zero => intro d seen cur level h; simpa [bfsLoop] using h
-  | succ fuel ih =>
-    intro d seen cur level h
-    unfold bfsLoop
-    split
-    · exact h
-    · have h' := bfsLevel_inv c sz cur d seen [] h
-      cases hx : bfsLevel c sz cur d seen [] with
-      | mk d' r =>
-        obtain ⟨seen', next, early⟩ := r
-        rw [hx] at h'
-        simp only
-        cases early with
-        | some o => exact h'
-        | none =>
-          simp only
-          split
-          · exact h'
-          · exact ih _ _ _ _ h'
-
-/-- **BFS from any node with any limits preserves the strict invariant.** -/
-theorem expandBfs_inv (c : Ctx n) (d : Diag n) (start : Nat) (lv sz : Option Nat) (h : StrictInv c d) :
-    StrictInv c (expandBfs c d start lv sz).1 :=
-  bfsLoop_inv c lv sz _ d _ _ _ h
-
-end Balm.Props.C04
-
-namespace Balm.Props.C04
-
-open Balm Balm.Impl Balm.SDm
-
-variable {n : Nat}
-
-/-- the DFS driver only changes the diagram through single-node expansion -/
-theorem dfsLoop_inv (c : Ctx n) (stackLimit sz : Option Nat) :
-    ∀ (fuel : Nat) (d : Diag n) (seen : List Nat) (stack : List (Nat × Option (List Nat))) (complete : Bool),
-      StrictInv c d → StrictInv c (dfsLoop c stackLimit sz fuel d seen stack complete).1 := by
-  intro fuel
-  induction fuel with
-  | zero => intro d seen stack complete h; simpa [dfsLoop] using h
-  | succ fuel ih =>
-    intro d seen stack complete h
-    cases stack with
-    | nil => simpa [dfsLoop] using h
-    | cons top rest =>
-      obtain ⟨node, succ?⟩ := top
-      -- the continuation after the successors are known
-      have hstep : ∀ (d' : Diag n) (succ : List Nat), StrictInv c d' →
-          StrictInv c (match dropSeen seen succ with
-            | [] => dfsLoop c stackLimit sz fuel d' seen rest complete
-            | s :: restSucc =>
-              if hit stackLimit rest.length then dfsLoop c stackLimit sz fuel d' seen rest false
-              else dfsLoop c stackLimit sz fuel d' (s :: seen) ((s, none) :: (node, some restSucc) :: rest) complete).1 := by
-        intro d' succ hd'
-        split
-        · exact ih _ _ _ _ hd'
-        · split
-          · exact ih _ _ _ _ hd'
-          · exact ih _ _ _ _ hd'
-      cases succ? with
-      | some succ =>
-        simp only [dfsLoop]
-        exact hstep d succ h
-      | none =>
-        simp only [dfsLoop]
-        split
-        · exact h
-        · have h' := expandNode_inv c d node h
-          cases hx : expandNode c d node with
-          | mk d' okk =>
-            rw [hx] at h'
-            simp only
-            split
-            · exact h'
-            · exact hstep d' _ h'
-
-/-- **DFS from any node with any limits preserves the strict invariant.** -/
-theorem expandDfs_inv (c : Ctx n) (d : Diag n) (start : Nat) (st sz : Option Nat) (h : StrictInv c d) :
-    StrictInv c (expandDfs c d start st sz).1 :=
-  dfsLoop_inv c st sz _ d _ _ _ h
-
-theorem targetLevel_inv (c : Ctx n) (target : Space n) (sz : Option Nat) :
-    ∀ (cur : List Nat) (d : Diag n) (seen next : List Nat), StrictInv c d →
-      StrictInv c (targetLevel c target sz cur d seen next).1 := by
-  intro cur
-  induction cur with
-  | nil => intro d seen next h; simpa [targetLevel] using h
-  | cons node rest ih =>
-    intro d seen next h
-    unfold targetLevel
-    simp only
-    split
-    · exact ih _ _ _ h
-    · split
-      · exact ih _ _ _ h
-      · split
-        · exact h
-        · have h' := expandNode_inv c d node h
-          cases hx : expandNode c d node with
-          | mk d' okk =>
-            rw [hx] at h'
-            simp only
-            split
-            · exact h'
-            · exact ih _ _ _ h'
-
-theorem targetLoop_inv (c : Ctx n) (target : Space n) (sz : Option Nat) :
-    ∀ (fuel : Nat) (d : Diag n) (seen cur : List Nat), StrictInv c d →
-      StrictInv c (targetLoop c target sz fuel d seen cur).1 := by
-  intro fuel
-  induction fuel with
-  | zero => intro d seen cur h; simpa [targetLoop] using h
-  | succ fuel ih =>
-    intro d seen cur h
-    unfold targetLoop
-    split
-    · exact h
-    · have h' := targetLevel_inv c target sz cur d seen [] h
-      cases hx : targetLevel c target sz cur d seen [] with
-      | mk d' r =>
-        obtain ⟨seen', next, early⟩ := r
-        rw [hx] at h'
-        simp only
-        cases early with
-        | some o => exact h'
-        | none => exact ih _ _ _ h'
-
-/-- **Target-directed expansion preserves the strict invariant.** -/
-theorem expandToTarget_inv (c : Ctx n) (d : Diag n) (target : Space n) (sz : Option Nat) (h : StrictInv c d) :
-    StrictInv c (expandToTarget c d target sz).1 :=
-  targetLoop_inv c target sz _ d _ _ h
-
-end Balm.Props.C04
-
-namespace Balm.Props.C04
-
-open Balm Balm.Impl Balm.SDm
-
-variable {n : Nat}
-
-/-- without `skip_ignored` the inner loop of the minimal-space driver does not touch the diagram -/
-theorem minDrop_noskip (c : Ctx n) (allMins : List (Space n)) (has : Bool) (seen : List Nat) :
-    ∀ (succ : List Nat) (d : Diag n), (minDrop c false allMins has seen succ d).2 = d := by
-  intro succ
-  induction succ with
-  | nil => intro d; simp [minDrop]
-  | cons x xs ih =>
-    intro d
-    unfold minDrop
-    split
-    · exact ih d
-    · split
-      · simpa using ih d
-      · rfl
-
-/-- the minimal-space driver (no skipping) only changes the diagram through single-node expansion -/
-theorem minLoop_inv (c : Ctx n) (sz : Option Nat) (allMins : List (Space n)) :
-    ∀ (fuel : Nat) (d : Diag n) (seen : List Nat) (mins : List (Space n))
-      (stack : List (Nat × Option (List Nat))),
-      StrictInv c d → StrictInv c (minLoop c sz false allMins fuel d seen mins stack).1 := by
-  intro fuel
-  induction fuel with
-  | zero => intro d seen mins stack h; simpa [minLoop] using h
-  | succ fuel ih =>
-    intro d seen mins stack h
-    cases stack with
-    | nil => simpa [minLoop] using h
-    | cons top rest =>
-      obtain ⟨node, succ?⟩ := top
-      have hstep : ∀ (d' : Diag n) (succ : List Nat), StrictInv c d' →
-          StrictInv c (
-            match minDrop c false allMins (mins.any fun m => m.leB (d'.space node)) seen succ d' with
-            | (succ', d'') =>
-              match succ' with
-              | [] =>
-                minLoop c sz false allMins fuel d'' seen
-                  (if (d''.isExp node && (d''.succs node).isEmpty) = true then removeFirst (d''.space node) mins else mins) rest
-              | s :: rest' =>
-                minLoop c sz false allMins fuel d'' (s :: seen) mins ((s, none) :: (node, some rest') :: rest)).1 := by
-        intro d' succ hd'
-        have hkeep := minDrop_noskip c allMins (mins.any fun m => m.leB (d'.space node)) seen succ d'
-        cases hx : minDrop c false allMins (mins.any fun m => m.leB (d'.space node)) seen succ d' with
-        | mk succ' d'' =>
-          rw [hx] at hkeep
-          simp only at hkeep
-          subst hkeep
-          simp only
-          split
-          · exact ih _ _ _ _ hd'
-          · exact ih _ _ _ _ hd'
-      cases succ? with
-      | some succ =>
-        simp only [minLoop]
-        exact hstep d succ h
-      | none =>
-        simp only [minLoop]
-        split
-        · exact h
-        · have h' := expandNode_inv c d node h
-          cases hx : expandNode c d node with
-          | mk d' okk =>
-            rw [hx] at h'
-            simp only
-            split
-            · exact h'
-            · exact hstep d' _ h'
-
-/-- **Minimal-space expansion without skipping preserves the strict invariant**, for every answer of
-    the `min` solver it is given. -/
-theorem expandMinimal_inv (c : Ctx n) (d : Diag n) (start : Nat) (sz : Option Nat) (allMins : List (Space n))
-    (h : StrictInv c d) : StrictInv c (expandMinimalWith c d start sz false allMins).1 :=
-  minLoop_inv c sz allMins _ d _ _ _ h
-
-theorem blockLevel_inv (c : Ctx n) (sz : Option Nat) (before : List Nat) :
-    ∀ (cur : List Nat) (d : Diag n) (next : List Nat), StrictInv c d →
-      StrictInv c (blockLevel c sz before cur d next).1 := by
-  intro cur
-  induction cur with
-  | nil => intro d next h; simpa [blockLevel] using h
-  | cons node rest ih =>
-    intro d next h
-    unfold blockLevel
-    split
-    · split
-      · exact ih _ _ h
-      · exact ih _ _ h
-    · split
-      · exact h
-      · have h' := expandNode_inv c d node h
-        cases hx : expandNode c d node with
-        | mk d' okk =>
-          rw [hx] at h'
-          simp only
-          split
-          · exact h'
-          · split
-            · exact ih _ _ h'
-            · exact ih _ _ h'
-            · exact ih _ _ h'
-
-theorem blockLoop_inv (c : Ctx n) (sz : Option Nat) :
-    ∀ (fuel : Nat) (d : Diag n) (cur before : List Nat), StrictInv c d →
-      StrictInv c (blockLoop c sz fuel d cur before).1 := by
-  intro fuel
-  induction fuel with
-  | zero => intro d cur before h; simpa [blockLoop] using h
-  | succ fuel ih =>
-    intro d cur before h
-    unfold blockLoop
-    split
-    · exact h
-    · have h' := blockLevel_inv c sz before (sortNat cur) d [] h
-      cases hx : blockLevel c sz before (sortNat cur) d [] with
-      | mk d' r =>
-        obtain ⟨next, early⟩ := r
-        rw [hx] at h'
-        simp only
-        cases early with
-        | some o => exact h'
-        | none => exact ih _ _ _ h'
-
-/-- block expansion (no source shortcuts, no motif-avoidant check) preserves the strict invariant -/
-theorem expandBlock_inv (c : Ctx n) (d : Diag n) (sz : Option Nat) (h : StrictInv c d) :
-    StrictInv c (expandBlock c d sz).1 :=
-  blockLoop_inv c sz _ d _ _ h
-
-theorem seedLoop_inv (c : Ctx n) (sz : Option Nat) :
-    ∀ (fuel : Nat) (d : Diag n) (seen : List Nat) (stack : List (Nat × Option (List Nat))) (found : List Bool),
-      StrictInv c d → StrictInv c (seedLoop c sz fuel d seen stack found).1 := by
-  intro fuel
-  induction fuel with
-  | zero => intro d seen stack found h; simpa [seedLoop] using h
-  | succ fuel ih =>
-    intro d seen stack found h
-    cases stack with
-    | nil => simpa [seedLoop] using h
-    | cons top stack =>
-      obtain ⟨node, succ?⟩ := top
-      have hstep : ∀ (d : Diag n) (succ : List Nat), StrictInv c d →
-          StrictInv c (match seedScan d seen succ found with
-            | ([], found') => seedLoop c sz fuel d seen stack found'
-            | (s :: rest, found') => seedLoop c sz fuel d (s :: seen) ((s, none) :: (node, some rest) :: stack) found').1 := by
-        intro d succ hd
-        cases hx : seedScan d seen succ found with
-        | mk succ' found' =>
-          cases succ' with
-          | nil => exact ih _ _ _ _ hd
-          | cons s rest => exact ih _ _ _ _ hd
-      cases succ? with
-      | some succ =>
-        simp only [seedLoop]
-        have := hstep d succ h
-        cases hx : seedScan d seen succ found with
-        | mk succ' found' =>
-          rw [hx] at this
-          cases succ' with
-          | nil => simpa using this
-          | cons s rest => simpa using this
-      | none =>
-        simp only [seedLoop]
-        split
-        · exact h
-        · have h' := expandNode_inv c d node h
-          cases hx : expandNode c d node with
-          | mk d' okk =>
-            rw [hx] at h'
-            simp only
-            split
-            · exact h'
-            · have := hstep d' (sortNat (d'.succs node)) h'
-              cases hy : seedScan d' seen (sortNat (d'.succs node)) found with
-              | mk succ' found' =>
-                rw [hy] at this
-                cases succ' with
-                | nil => simpa using this
-                | cons s rest => simpa using this
-
-/-- attractor-seed expansion preserves the strict invariant, whatever the solvers answer -/
-theorem expandASeeds_inv (c : Ctx n) (d : Diag n) (sz : Option Nat) (allMins : List (Space n)) (found : List Bool)
-    (h : StrictInv c d) : StrictInv c (expandASeeds c d sz allMins found).1 := by
-  unfold expandASeeds
-  have h1 := expandMinimal_inv c d 0 sz allMins h
-  cases hx : expandMinimalWith c d 0 sz false allMins with
-  | mk d1 o1 =>
-    rw [hx] at h1
-    simp only
-    cases o1 with
-    | err => exact h1
-    | ok b => exact seedLoop_inv c sz _ d1 _ _ _ h1
-
-/-- the plain operations of the model -/
-inductive PlainOp (n : Nat) where
-  | one (i : Nat)
-  | bfs (start : Nat) (lv sz : Option Nat)
-  | dfs (start : Nat) (st sz : Option Nat)
-  | target (t : Space n) (sz : Option Nat)
-  | minimal (start : Nat) (sz : Option Nat) (solverAnswer : List (Space n))
-  | block (sz : Option Nat)
-  | aseeds (sz : Option Nat) (minAnswer : List (Space n)) (solverVerdicts : List Bool)
-
-def runOp (c : Ctx n) (d : Diag n) : PlainOp n → Diag n
-  | .one i => (expandNode c d i).1
-  | .bfs s lv sz => (expandBfs c d s lv sz).1
-  | .dfs s st sz => (expandDfs c d s st sz).1
-  | .target t sz => (expandToTarget c d t sz).1
-  | .minimal s sz ans => (expandMinimalWith c d s sz false ans).1
-  | .block sz => (expandBlock c d sz).1
-  | .aseeds sz ms found => (expandASeeds c d sz ms found).1
-
-/-- **C04 for the executable model.** For every network, every stable-motif limit and every history
-    of plain operations – single-node expansion, BFS, DFS, target-directed, minimal-space, attractor-seed
-    and block expansion (without source shortcuts) with arbitrary start nodes, limits, targets and solver answers – the strict invariant
-    holds in the resulting diagram (hence at every moment of the history). -/
-theorem plain_history_inv (N : Net n) (L : Nat) (ops : List (PlainOp n)) :
-    StrictInv (Ctx.mk' N L) (ops.foldl (runOp (Ctx.mk' N L)) (initDiag (Ctx.mk' N L))) := by
-  have : ∀ (ops : List (PlainOp n)) (d : Diag n), StrictInv (Ctx.mk' N L) d →
-      StrictInv (Ctx.mk' N L) (ops.foldl (runOp (Ctx.mk' N L)) d) := by
-    intro ops
-    induction ops with
-    | nil => intro d h; exact h
-    | cons op ops ih =>
-      intro d h
-      apply ih
-      cases op with
-      | one i => exact expandNode_inv _ d i h
-      | bfs s lv sz => exact expandBfs_inv _ d s lv sz h
-      | dfs s st sz => exact expandDfs_inv _ d s st sz h
-      | target t sz => exact expandToTarget_inv _ d t sz h
-      | minimal s sz ans => exact expandMinimal_inv _ d s sz ans h
-      | block sz => exact expandBlock_inv _ d sz h
-      | aseeds sz ms found => exact expandASeeds_inv _ d sz ms found h
-  exact this ops _ (init_inv N L)
-
-end Balm.Props.C04
+/-! Property C04: theorems are listed in `obligations.json` (proofs: `BalmProofs/PlainInv.lean`, `GenericInv.lean`, `JudgeSpec.lean`, `JudgeExact.lean`); see DESIGN.md section 6. -/
